@@ -7,6 +7,7 @@ import (
 
 	"github.com/goatcms/goatcore/app"
 	"github.com/goatcms/goatcore/varutil/goaterr"
+	"github.com/goatcms/goatcore/varutil/verifhook"
 )
 
 // The isolated scope is a isolated context scope depended from parent scope. The isolated scope doesn't affect parent.
@@ -70,6 +71,7 @@ func (scp *Isolated) Kill() {
 // Stop stop the scope context without error
 func (scp *Isolated) Stop() {
 	if !scp.IsDone() {
+		verifhook.Yield("isolated.stop.gap")
 		close(scp.done)
 	}
 }
